@@ -333,7 +333,11 @@ pub fn policies(tier: Tier) -> Vec<LPol> {
         ("action:var-in-set", E::bin(BinOp::In, act.clone(), E::Set(vec![writers(), E::Ent(view())]))),
         ("action:group-literal-in-group", E::bin(BinOp::In, writers(), writers())),
         ("action:other-literal-in-set", E::bin(BinOp::In, E::Ent(edit()), E::Set(vec![writers()]))),
-        ("action:not-other-literal-in-group", E::not(E::bin(BinOp::In, E::Ent(edit()), writers()))),
+        // negations of facts the typechecker derives from the action hierarchy: the policy is
+        // "impossible" by type, yet satisfiable on a store that lacks the action entities (F7)
+        ("action:negated-hierarchy-fact:other-literal", E::not(E::bin(BinOp::In, E::Ent(edit()), writers()))),
+        ("action:negated-hierarchy-fact:var", E::not(E::bin(BinOp::In, act.clone(), writers()))),
+        ("action:negated-hierarchy-fact:var-in-set", E::not(E::bin(BinOp::In, act.clone(), E::Set(vec![writers()])))),
         ("action:var-eq-literal", E::bin(BinOp::Eq, act.clone(), E::Ent(edit()))),
         ("action:other-literal-in-group-and-age", E::and(E::bin(BinOp::In, E::Ent(edit()), writers()), E::bin(BinOp::Gt, E::attr(E::Var(Var::Principal), "age"), E::Long(0)))),
     ];
